@@ -584,3 +584,130 @@ Lemma flow_tuning_exact_new :
 Proof.
   intros. apply (flow_tuning_exact upd n (flow_new ssw num_tune) 0). cbn. discriminate.
 Qed.
+
+(* ---------------------------------------------------------------------------------------- *)
+(* C09: the estimators hold EXACTLY the fed draws after the last / last-but-one switch        *)
+(* ---------------------------------------------------------------------------------------- *)
+Section Exact.
+  Variable nextw : N -> N.
+  Variable o : sopts.
+  Notation adapt := (gs_adapt nextw o).
+
+  Lemma newer_app h a b : newer_than h (a ++ b) = newer_than h a ++ newer_than h b.
+  Proof. apply filter_app. Qed.
+
+  Lemma newer_none h l : Forall (fun t => (t <= h)%Z) l -> newer_than h l = [].
+  Proof.
+    induction 1 as [|x l Hx Hl IH]; cbn; auto.
+    destruct (Z.ltb_spec h x); [lia|exact IH].
+  Qed.
+
+  Lemma nth_hist_lt (hist : list Z) (i : nat) (b : Z) :
+    Forall (fun h => (h < b)%Z) hist -> (-2 < b)%Z -> (nth i hist (-2) < b)%Z.
+  Proof.
+    intros H Hb. revert i. induction H as [|x l Hx Hl IH]; intros [|i]; cbn; auto.
+  Qed.
+
+  Definition exact_inv (nt fin : N) (st : gstate) (hist fed : list Z) (k : N) : Prop :=
+    g_num_tune st = nt /\ g_final st = fin /\
+    Forall (fun t => (t < Z.of_N k)%Z) fed /\ Forall (fun h => (h < Z.of_N k)%Z) hist /\
+    w_fg (g_win st) = newer_than (nth 1 hist (-2)%Z) fed /\
+    w_bg (g_win st) = newer_than (nth 0 hist (-2)%Z) fed.
+
+  Lemma exact_step nt fin st hist fed k g :
+    exact_inv nt fin st hist fed k ->
+    exact_inv nt fin (fst (adapt st k g))
+      (if existsb is_switch (snd (adapt st k g)) then Z.of_N k :: hist else hist)
+      (fed ++ fed_step nt fin k g) (k + 1).
+  Proof.
+    intros (Hnt & Hfin & Hfed & Hhist & Hfg & Hbg). subst nt fin.
+    assert (Hfed' : Forall (fun t => (t < Z.of_N (k + 1))%Z) fed)
+      by (eapply Forall_impl; [|exact Hfed]; cbn; intros; lia).
+    assert (Hhist' : Forall (fun h => (h < Z.of_N (k + 1))%Z) hist)
+      by (eapply Forall_impl; [|exact Hhist]; cbn; intros; lia).
+    unfold fed_step.
+    destruct (N.leb_spec (g_num_tune st) k) as [Ha|Ha];
+      [|destruct (N.ltb_spec k (g_final st)) as [Hf|Hf]].
+    - replace (k <? g_num_tune st) with false by (symmetry; apply N.ltb_ge; exact Ha).
+      rewrite andb_false_r, app_nil_r. cbn [andb].
+      unfold gs_adapt. destruct (N.leb_spec (g_num_tune st) k); [|lia]. cbn.
+      repeat split; auto.
+    - replace (k <? g_num_tune st) with true by (symmetry; apply N.ltb_lt; exact Ha).
+      replace (k <? g_final st) with true by (symmetry; apply N.ltb_lt; exact Hf).
+      rewrite !andb_true_r.
+      rewrite adapt_main by assumption. cbn [fst snd].
+      set (sw := d_switch nextw o st k g).
+      assert (Hex : existsb is_switch
+        ((if sw then [ESwitch] else []) ++
+         (if d_attempt nextw o st k g then [EMassAdapt (d_change nextw o st k g)] else []) ++
+         [EAdvance (d_is_late nextw o st k)] ++
+         (if d_change nextw o st k g && g_has_init st then [EStepInit] else [ESetStep false])) = sw).
+      { destruct sw; [reflexivity|].
+        destruct (d_attempt nextw o st k g); destruct (_ && g_has_init st); reflexivity. }
+      rewrite Hex. unfold exact_inv. cbn [g_num_tune g_final g_win]. unfold d_w2. fold sw.
+      pose proof (nth_hist_lt hist 0 (Z.of_N k) Hhist ltac:(lia)) as H0.
+      pose proof (nth_hist_lt hist 1 (Z.of_N k) Hhist ltac:(lia)) as H1.
+      assert (Hw1 : w_fg (d_w1 st k g) = newer_than (nth 1 hist (-2)%Z) (fed ++ (if g then [Z.of_N k] else [])) /\
+                    w_bg (d_w1 st k g) = newer_than (nth 0 hist (-2)%Z) (fed ++ (if g then [Z.of_N k] else []))).
+      { unfold d_w1. rewrite !newer_app. destruct g; cbn [win_add w_fg w_bg newer_than filter].
+        - apply Z.ltb_lt in H0, H1. rewrite H0, H1, Hfg, Hbg. split; reflexivity.
+        - rewrite !app_nil_r. split; assumption. }
+      destruct Hw1 as (Hfg1 & Hbg1).
+      assert (Hfedk : Forall (fun t => (t < Z.of_N (k + 1))%Z) (fed ++ (if g then [Z.of_N k] else []))).
+      { apply Forall_app. split; [exact Hfed'|]. destruct g; repeat constructor. lia. }
+      destruct sw.
+      + cbn [win_switch w_fg w_bg nth].
+        repeat split; auto.
+        * constructor; [lia|exact Hhist'].
+        * symmetry. apply newer_none. eapply Forall_impl; [|exact Hfedk]. cbn; intros; lia.
+      + repeat split; auto.
+    - replace (k <? g_final st) with false by (symmetry; apply N.ltb_ge; exact Hf).
+      rewrite andb_false_r, app_nil_r.
+      unfold gs_adapt. destruct (N.leb_spec (g_num_tune st) k); [lia|].
+      destruct (N.ltb_spec k (g_final st)); [lia|]. cbn.
+      repeat split; auto.
+  Qed.
+
+  Lemma exact_run nt fin goods : forall st hist fed k,
+    exact_inv nt fin st hist fed k ->
+    let '(st', hist') := run_sw nextw o st k goods hist in
+    exact_inv nt fin st' hist' (fed ++ fed_from nt fin k goods) (k + N.of_nat (length goods)).
+  Proof.
+    induction goods as [|g gs IH]; intros st hist fed k Hinv; cbn [run_sw length fed_from].
+    - rewrite app_nil_r. replace (k + N.of_nat 0) with k by lia. exact Hinv.
+    - pose proof (exact_step nt fin st hist fed k g Hinv) as Hs.
+      destruct (adapt st k g) as [st1 evs]. cbn [fst snd] in Hs.
+      specialize (IH st1 _ _ (k + 1) Hs).
+      destruct (run_sw nextw o st1 (k + 1) gs _) as [st2 h2].
+      replace (k + N.of_nat (S (length gs))) with (k + 1 + N.of_nat (length gs)) by lia.
+      rewrite app_assoc. exact IH.
+  Qed.
+
+  (* After any history of good / rejected draws the foreground estimator holds exactly the fed
+     draws (initial point, then good draws before the final window, oldest first, each once)
+     that are later than the switch before the last one; the background estimator exactly those
+     later than the last switch. *)
+  Lemma fg_is_exact st0 goods :
+    let '(st, hist) := run_sw nextw o (gs_init st0) 0 goods [] in
+    w_fg (g_win st) = newer_than (nth 1 hist (-2)%Z) (fed_tags st0 goods) /\
+    w_bg (g_win st) = newer_than (nth 0 hist (-2)%Z) (fed_tags st0 goods).
+  Proof.
+    assert (Hinit : exact_inv (g_num_tune st0) (g_final st0) (gs_init st0) [] [init_tag] 0).
+    { unfold exact_inv. cbn. repeat split; auto. repeat constructor. }
+    pose proof (exact_run _ _ goods _ _ _ _ Hinit) as H.
+    destruct (run_sw nextw o (gs_init st0) 0 goods []) as [st hist].
+    destruct H as (_ & _ & _ & _ & Hfg & Hbg). split; assumption.
+  Qed.
+
+  (* the printed window of draw i is the foreground of the state reached after draws 0..i *)
+  Lemma fg_windows_spec goods : forall st k hist i, (i < length goods)%nat ->
+    nth i (fg_windows nextw o st k goods) [] =
+    w_fg (g_win (fst (run_sw nextw o st k (firstn (S i) goods) hist))).
+  Proof.
+    induction goods as [|g gs IH]; intros st k hist i Hi; [cbn in Hi; lia|].
+    cbn [fg_windows firstn run_sw].
+    destruct (adapt st k g) as [st1 evs] eqn:E. cbn [fst].
+    destruct i as [|i]; [reflexivity|].
+    cbn [nth]. cbn in Hi. apply IH. lia.
+  Qed.
+End Exact.
